@@ -172,6 +172,12 @@ func sameLogs(model []mlog, got []*ethtypes.Log) bool {
 	}
 	for i, l := range model {
 		g := got[i]
+		if l.anon {
+			if g.Address != l.addr || len(g.Topics) != 0 || !bytes.Equal(g.Data, l.data) {
+				return false
+			}
+			continue
+		}
 		if g.Address != l.addr || len(g.Topics) != 1 || g.Topics[0] != l.topic || !bytes.Equal(g.Data, l.data) {
 			return false
 		}
